@@ -12,7 +12,7 @@ def gen(args):
     rng = np.random.default_rng([sd, wid, 303])
     out = []
     for t in core.timed(range(ncases)):
-        shape = ["tall", "wide", "square", "lowrank", "illcond"][t % 5]
+        shape = ["tall", "wide", "square", "lowrank", "illcond", "weakgap"][(t + wid) % 6]
         if shape == "tall":
             n, m = int(rng.integers(6, 9)), int(rng.integers(2, 5))
         elif shape == "wide":
@@ -21,7 +21,20 @@ def gen(args):
             n = m = int(rng.integers(4, 7))
         else:
             n, m = int(rng.integers(5, 9)), int(rng.integers(3, 6))
+        wk = None
+        if shape == "weakgap":
+            n, m = 8, int(rng.integers(5, 8))
         Xi = P.centred_lattice(rng, n, m, 4, "lowrank" if shape == "lowrank" else "full")
+        if shape == "weakgap":
+            # a few leading directions followed by a FLAT tail that is only moderately weaker (eigenvalue ratio 0.56 .. 0.69):
+            # orthogonal, centred +-1 patterns (columns of the 8 x 8 Hadamard matrix) times integer scales c+wk, .., c+1, c, c, ..
+            H2 = np.array([[1, 1], [1, -1]])
+            H8 = np.kron(np.kron(H2, H2), H2)
+            cols = rng.permutation(np.arange(1, 8))[:m]
+            wk = int(rng.integers(1, 3))
+            c0 = int(rng.integers(3, 6))
+            scl = np.array([c0 + wk - j for j in range(wk)] + [c0] * (m - wk))
+            Xi = (H8[:, cols] * scl)[rng.permutation(8)][:, rng.permutation(m)]
         if shape == "square" and rng.random() < 0.4:
             Xi = P.symmetric_centred(rng, n)              # a square symmetric data matrix is still a data matrix
         p = int(rng.integers(1, 3))
@@ -65,6 +78,8 @@ def gen(args):
         k = int(rng.integers(1, kmax + 1))
         if a == 0 and rng.random() < 0.6:
             k = int(rng.integers(min(p + 1, kmax), kmax + 1))     # more components than independent targets: zero-weight components retained
+        if wk is not None:
+            a, k = (8 if rng.random() < 0.6 else a), wk          # the leading directions are the ones retained
         if xpert is not None:
             # the weak direction's own eigenvalue (about 1e-12, above the estimator's guard) is never among the retained ones:
             # a component at the noise floor is amplified legitimately and differently by the approximate solvers
